@@ -90,7 +90,8 @@ Inductive mobs :=
 | OStep                          (* a stimulus is applied (delimits the steps in a trace) *)
 | OPv (v : verdict)
 | ORxNoConn
-| OTx (dest : N) (bytes : list byte)
+| OTxReq (dest : N) (seq fc : N) (objs : list byte)   (* a request; octets = [request_bytes] *)
+| OTxConfirm (dest : N) (uns : bool) (seq : N)        (* a CONFIRM; octets = [confirm_bytes] *)
 | OTxLinkStatus
 | OCbBegin (rt : read_type) (hdr : list byte)
 | OCbItem (it : item)
@@ -320,7 +321,7 @@ Definition send_nonread (cfg : mcfg) (st : mstate) (k : nr_kind) (objs : list by
   let st1 := set_seq st (seq_next seq) in
   if fits cfg objs then
     (set_run st1 (RNonRead k seq (s_now st + c_timeout cfg) started),
-     emit st (OTx (c_addr cfg) (request_bytes seq (nr_fc k) objs)))
+     emit st (OTxReq (c_addr cfg) seq (nr_fc k) objs))
   else
     let '(st2, o) := nr_error cfg st1 k EWriteError in
     (set_run st2 RNone, o ++ notify_fail st2 (nr_type k) EWriteError).
@@ -337,7 +338,7 @@ Definition start_read (cfg : mcfg) (st : mstate) (k : rd_kind) (objs : list byte
   let start := emit st (OInfoStart (rd_type k) 1 seq) in
   if fits cfg objs then
     (set_run st1 (RRead k seq true (s_now st + c_timeout cfg) (s_now st)),
-     start ++ emit st (OTx (c_addr cfg) (request_bytes seq 1 objs)))
+     start ++ emit st (OTxReq (c_addr cfg) seq 1 objs))
   else
     let '(st2, o) := rd_error cfg st1 k EWriteError in
     (set_run st2 RNone, start ++ o ++ notify_fail st2 (rd_type k) EWriteError).
@@ -426,7 +427,10 @@ Fixpoint pump (fuel : nat) (cfg : mcfg) (st : mstate) : mstate * list tobs :=
 Definition pump_fuel (st : mstate) : nat := S (S (length (s_queue st))).
 Definition run_pump (cfg : mcfg) (st : mstate) : mstate * list tobs := pump (pump_fuel st) cfg st.
 
-(* [f st] then the task loop *)
+(* [f st] then the task loop.  The event handlers below never start a task themselves: whatever
+   happens, the session returns to the loop of MasterSession::run, which is [run_pump], applied
+   once after the handler in [mstep] (it does nothing while a task is waiting or there is no
+   connection) *)
 Definition then_pump (cfg : mcfg) (r : mstate * list tobs) : mstate * list tobs :=
   let '(st1, o) := r in
   let '(st2, o') := run_pump cfg st1 in (st2, o ++ o').
@@ -452,7 +456,7 @@ Definition handle_unsol (cfg : mcfg) (st : mstate) (src : N) (h : rhdr) (objs : 
       let dup := match s_last_unsol st1 with Some old => frag_eqb old new | None => false end in
       let st2 := set_last_unsol st1 (Some new) in
       let confirm := if c_con (h_ctrl h)
-                     then emit st (OTx (c_addr cfg) (confirm_bytes true (c_seq (h_ctrl h))))
+                     then emit st (OTxConfirm (c_addr cfg) true (c_seq (h_ctrl h)))
                      else [] in
       if dup then
         (st2, emit st (OInfoUnsol true (c_seq (h_ctrl h))) ++ confirm)
@@ -511,18 +515,18 @@ Definition on_nonread_rx (cfg : mcfg) (st : mstate) (k : nr_kind) (seq deadline 
   else if negb (src =? c_addr cfg) then (st, [])
   else if negb (c_seq (h_ctrl h) =? seq) then (st, [])
   else if negb (c_fir (h_ctrl h) && c_fin (h_ctrl h)) then
-    then_pump cfg (fail_running cfg st EMultiFragment)
+    fail_running cfg st EMultiFragment
   else if iin2_bad (h_iin2 h) then
-    then_pump cfg (fail_running cfg st (ERejected (h_iin1 h) (h_iin2 h)))
+    fail_running cfg st (ERejected (h_iin1 h) (h_iin2 h))
   else
-    let confirm := if c_con (h_ctrl h) then emit st (OTx (c_addr cfg) (confirm_bytes false seq))
+    let confirm := if c_con (h_ctrl h) then emit st (OTxConfirm (c_addr cfg) false seq)
                    else [] in
     if s_assoc st then
       let '(st1, o) := handle_nonread_response cfg (process_iin st (h_iin1 h)) k seq started h objs v in
-      then_pump cfg (st1, confirm ++ o)
+      (st1, confirm ++ o)
     else
       let '(st1, o) := nr_error cfg st k ENoAssociation in
-      then_pump cfg (set_run st1 RNone, confirm ++ o).
+      (set_run st1 RNone, confirm ++ o).
 
 (* process_read_response + the loop of execute_read_task + run_read_task *)
 Definition on_read_rx (cfg : mcfg) (st : mstate) (k : rd_kind) (seq : N) (first : bool)
@@ -532,29 +536,29 @@ Definition on_read_rx (cfg : mcfg) (st : mstate) (k : rd_kind) (seq : N) (first 
   if h_unsol h then handle_unsol cfg st src h objs v items
   else if negb (src =? c_addr cfg) then (st, [])
   else if negb (c_seq c =? seq) then (st, [])
-  else if c_fir c && negb first then then_pump cfg (fail_running cfg st EUnexpectedFir)
-  else if negb (c_fir c) && first then then_pump cfg (fail_running cfg st ENeverFir)
-  else if negb (c_fin c) && negb (c_con c) then then_pump cfg (fail_running cfg st ENonFinWithoutCon)
+  else if c_fir c && negb first then fail_running cfg st EUnexpectedFir
+  else if negb (c_fir c) && first then fail_running cfg st ENeverFir
+  else if negb (c_fin c) && negb (c_con c) then fail_running cfg st ENonFinWithoutCon
   else if iin2_bad (h_iin2 h) then
-    then_pump cfg (fail_running cfg st (ERejected (h_iin1 h) (h_iin2 h)))
-  else if negb (s_assoc st) then then_pump cfg (fail_running cfg st ENoAssociation)
+    fail_running cfg st (ERejected (h_iin1 h) (h_iin2 h))
+  else if negb (s_assoc st) then fail_running cfg st ENoAssociation
   else
     let st1 := process_iin st (h_iin1 h) in
     match v with
     | VOk =>
       let o := deliver st (rd_read_type k) h items
-               ++ (if c_con c then emit st (OTx (c_addr cfg) (confirm_bytes false seq)) else []) in
+               ++ (if c_con c then emit st (OTxConfirm (c_addr cfg) false seq) else []) in
       if c_fin c then
         let '(st2, o2) :=
           match k with
           | RDUser tok => (st1, emit st (ORes tok ROk))
           | RDIntegrity => (set_integ st1 AIdle true, [])
           end in
-        then_pump cfg (set_run st2 RNone, o ++ o2 ++ emit st (OInfoSuccess (rd_type k) 1 seq))
+        (set_run st2 RNone, o ++ o2 ++ emit st (OInfoSuccess (rd_type k) 1 seq))
       else
         (set_run (set_seq st1 (seq_next (s_seq st1)))
                  (RRead k (s_seq st1) false (s_now st + c_timeout cfg) started), o)
-    | _ => then_pump cfg (fail_running cfg st1 EMalformed)
+    | _ => fail_running cfg st1 EMalformed
     end.
 
 Definition on_rx (cfg : mcfg) (st : mstate) (src : N) (frag : list byte) (v : verdict)
@@ -563,19 +567,19 @@ Definition on_rx (cfg : mcfg) (st : mstate) (src : N) (frag : list byte) (v : ve
   match parse_response frag with
   | PError =>
     match s_run st with
-    | RNone => run_pump cfg st
-    | RLink _ _ => then_pump cfg (fail_running cfg st EBadHeaders)
-    | _ => then_pump cfg (fail_running cfg st ETransport)
+    | RNone => (st, [])
+    | RLink _ _ => fail_running cfg st EBadHeaders
+    | _ => fail_running cfg st ETransport
     end
   | PResponse h objs =>
     match s_run st with
     | RNone =>
-      if h_unsol h then then_pump cfg (handle_unsol cfg st src h objs v items)
-      else run_pump cfg st
+      if h_unsol h then handle_unsol cfg st src h objs v items
+      else (st, [])
     | RLink _ _ =>
       let '(st1, o) := if h_unsol h then handle_unsol cfg st src h objs v items else (st, []) in
       let '(st2, o2) := fail_running cfg st1 EBadHeaders in
-      then_pump cfg (st2, o ++ o2)
+      (st2, o ++ o2)
     | RNonRead k seq d started => on_nonread_rx cfg st k seq d started src h objs v items
     | RRead k seq first d started => on_read_rx cfg st k seq first d started src h objs v items
     end
@@ -584,23 +588,14 @@ Definition on_rx (cfg : mcfg) (st : mstate) (src : N) (frag : list byte) (v : ve
 (* ---------------------------------------------------------------------------------------- *)
 (* messages and the connection loop *)
 
-(* a message was processed while connected: the idle loops return to the task loop; a task
-   that is waiting for its response goes on waiting with the deadline it had (since fix dffa09f
-   this also holds for the link status check) *)
-Definition after_message (cfg : mcfg) (st : mstate) : mstate * list tobs :=
-  match s_run st with
-  | RNone => run_pump cfg st
-  | _ => (st, [])
-  end.
-
 Definition on_user (cfg : mcfg) (st : mstate) (tok : N) (t : utask) : mstate * list tobs :=
   if negb (s_assoc st) then
     let o := emit st (ORes tok (RErr ENoAssociation)) in
-    if s_conn st then then_pump cfg (st, o) else (st, o)
+    (st, o)
   else if negb (s_conn st) then (st, emit st (ORes tok (RErr ENoConnection)))
   else if (length (s_queue st) <? c_maxq cfg)%nat then
-    after_message cfg (set_queue st (s_queue st ++ [(tok, t)]))
-  else then_pump cfg (st, emit st (ORes tok (RErr ETooMany))).
+    (set_queue st (s_queue st ++ [(tok, t)]), [])
+  else (st, emit st (ORes tok (RErr ETooMany))).
 
 Definition stop_err (why : stop) : terr :=
   match why with StDisable => EDisabled | StShutdown => EShutdown_ | StLink => ELink end.
@@ -623,7 +618,7 @@ Definition stop_run (cfg : mcfg) (st : mstate) (why : stop) : mstate * list tobs
 
 Definition try_connect (cfg : mcfg) (st : mstate) : mstate * list tobs :=
   if negb (s_conn st) && s_enabled st && s_linkup st && negb (s_stopped st) then
-    then_pump cfg (set_chan st true true true false, emit st OChanConnected)
+    (set_chan st true true true false, emit st OChanConnected)
   else (st, []).
 
 Definition on_event (cfg : mcfg) (st : mstate) (ev : mevent) : mstate * list tobs :=
@@ -637,7 +632,7 @@ Definition on_event (cfg : mcfg) (st : mstate) (ev : mevent) : mstate * list tob
     if s_conn st then stop_run cfg st1 StDisable else (st1, [])
   | EEnable =>
     let st1 := set_chan st (s_conn st) true (s_linkup st) (s_stopped st) in
-    if s_conn st then after_message cfg st1 else try_connect cfg st1
+    if s_conn st then (st1, []) else try_connect cfg st1
   | EDropIo =>
     if s_conn st then stop_run cfg st StLink
     else (set_chan st false (s_enabled st) false (s_stopped st), [])
@@ -646,7 +641,7 @@ Definition on_event (cfg : mcfg) (st : mstate) (ev : mevent) : mstate * list tob
   | ERemove =>
     let o := flat_map (fun p => emit st (ORes (fst p) RDropped)) (s_queue st) in
     let st1 := set_queue (set_assoc st false) [] in
-    if s_conn st then then_pump cfg (st1, o) else (st1, o)
+    (st1, o)
   | EShutdown =>
     let '(st1, o) := if s_conn st then stop_run cfg st StShutdown else (st, []) in
     (set_chan st1 false (s_enabled st1) (s_linkup st1) true, o ++ emit st OChanStopped)
@@ -691,7 +686,7 @@ Definition span_of (ev : mevent) : N := match ev with ESleep n => n + 1 | _ => 1
 
 Definition mstep (cfg : mcfg) (st : mstate) (ev : mevent) : mstate * list tobs :=
   if s_stopped st then (st, emit st OStep ++ emit st OIgnored) else
-  let '(st1, o) := on_event cfg st ev in
+  let '(st1, o) := then_pump cfg (on_event cfg st ev) in
   let '(st2, o') := advance (S (N.to_nat (span_of ev))) cfg st1 (s_now st1 + span_of ev) in
   (st2, emit st OStep ++ o ++ o').
 
